@@ -113,8 +113,8 @@ fn k_c12_cursor_not_rebased(_cfg: &Config, ops: &[Op], _last: &Op, res: &JobResu
 /// Failing step matched: StrictlyAtOnce; at or after a reopen/restart; pure redelivery
 /// (higher count / longer drain, nothing lost or foreign); and in some incarnation before
 /// that restart a topic received append-type ops of which none wrote anything (rejected
-/// appends, empty batches), so the block handed to its writer in that incarnation stayed
-/// unwritten.
+/// appends, empty batches), or the first entry written through a topic's writer was larger
+/// than a block, so the block handed to that writer in that incarnation stayed unwritten.
 fn k_c06_tail_id_drift(cfg: &Config, ops: &[Op], _last: &Op, res: &JobResult, _pre: &Model, x: &Discrepancy) -> bool {
     if cfg.cons != Consistency::Strict || !x.pure_redelivery || !matches!(x.class, "count" | "read.order") {
         return false;
@@ -127,19 +127,32 @@ fn k_c06_tail_id_drift(cfg: &Config, ops: &[Op], _last: &Op, res: &JobResult, _p
     let mut wrote: std::collections::BTreeSet<u8> = Default::default();
     let mut long_topic = false;
     let mut unwritten = false;
+    let fill = crate::checks::sizes().fill;
+    // topics that already have a writer in the current incarnation
+    let mut seen_writer: std::collections::BTreeSet<u8> = Default::default();
     for (i, op) in ops[..ri].iter().enumerate() {
         let ok = res.obs.get(i).map(|o| o.res == Res::Ok).unwrap_or(false);
         match op {
-            Op::Append { t, .. } => {
+            Op::Append { t, len } => {
                 touched.insert(*t);
                 if ok {
+                    // the first entry a writer gets is larger than the block it was handed:
+                    // that block is given up without ever being written
+                    if !seen_writer.contains(t) && *len > fill {
+                        unwritten = true;
+                    }
                     wrote.insert(*t);
+                    seen_writer.insert(*t);
                 }
             }
             Op::Batch { t, lens } => {
                 touched.insert(*t);
                 if ok && !lens.is_empty() {
+                    if !seen_writer.contains(t) && lens[0] > fill {
+                        unwritten = true;
+                    }
                     wrote.insert(*t);
+                    seen_writer.insert(*t);
                 }
             }
             Op::BatchN { t, n, .. } => {
@@ -155,6 +168,7 @@ fn k_c06_tail_id_drift(cfg: &Config, ops: &[Op], _last: &Op, res: &JobResult, _p
                 }
                 touched.clear();
                 wrote.clear();
+                seen_writer.clear();
             }
             _ => {}
         }
